@@ -6,6 +6,54 @@ use std::panic::{self, AssertUnwindSafe};
 pub struct Panicked {
     pub loc: String,
     pub msg: String,
+    /// innermost library frames (function names), captured only when `capture_frames(true)` was called
+    pub frames: Vec<String>,
+}
+
+static CAPTURE_FRAMES: std::sync::atomic::AtomicBool = std::sync::atomic::AtomicBool::new(false);
+
+/// enable backtrace capture in the panic hook (process-wide; used by the C18 worker)
+pub fn capture_frames(on: bool) {
+    CAPTURE_FRAMES.store(on, std::sync::atomic::Ordering::SeqCst);
+}
+
+fn library_frames() -> Vec<String> {
+    let bt = std::backtrace::Backtrace::force_capture().to_string();
+    let mut out: Vec<String> = vec![];
+    for line in bt.lines() {
+        let l = line.trim();
+        let Some((n, rest)) = l.split_once(": ") else { continue };
+        if n.parse::<u32>().is_err() || !rest.contains("qrlew::") {
+            continue;
+        }
+        // strip generics, hashes and closure markers: keep module path + function
+        let mut name = String::new();
+        let mut depth = 0i32;
+        for c in rest.chars() {
+            match c {
+                '<' => depth += 1,
+                '>' => depth -= 1,
+                _ if depth == 0 => name.push(c),
+                _ => {}
+            }
+        }
+        let name = name.replace("::{{closure}}", "").replace("{{closure}}", "");
+        let name = match name.rfind("::h") {
+            Some(i) if name.len() - i == 19 => name[..i].to_string(),
+            _ => name,
+        };
+        let name = name.trim_matches(':').replace(" as ", "").to_string();
+        let short: Vec<&str> = name.split("::").filter(|p| !p.is_empty()).collect();
+        let short = short.iter().rev().take(2).rev().cloned().collect::<Vec<_>>().join("::");
+        if short.is_empty() || out.last() == Some(&short) {
+            continue;
+        }
+        out.push(short);
+        if out.len() >= 3 {
+            break;
+        }
+    }
+    out
 }
 
 impl Panicked {
@@ -16,14 +64,28 @@ impl Panicked {
         let m: String = self.msg_class().chars().map(|c| if c.is_ascii_alphanumeric() || c == '#' { c } else { '_' }).collect();
         format!("{}~{}", f, m)
     }
+    /// file~message~innermost library frames
+    pub fn deep_sig(&self) -> String {
+        let f: String = self.frames.join("<").chars().map(|c| if c.is_ascii_alphanumeric() || c == '<' || c == ':' || c == '_' { c } else { '_' }).collect();
+        format!("{}~{}", self.file_line(), f)
+    }
     pub fn file(&self) -> String {
         self.loc.split(':').next().unwrap_or("").to_string()
     }
-    /// A short stable class of the message (digits and quoted parts removed)
+    /// A short stable class of the message: for `unwrap()` failures the error variant name, otherwise the first words
+    /// with digits removed
     pub fn msg_class(&self) -> String {
+        let m = &self.msg;
+        let cut: String = if let Some(i) = m.find("value: ").filter(|_| m.starts_with("called")) {
+            let head = &m[..i + 7];
+            let tail: String = m[i + 7..].chars().take_while(|c| c.is_ascii_alphanumeric() || *c == '_' || *c == ':').collect();
+            format!("{head}{tail}")
+        } else {
+            m.chars().take(40).collect()
+        };
         let mut out = String::new();
         let mut in_digits = false;
-        for c in self.msg.chars().take(60) {
+        for c in cut.chars() {
             if c == '|' || c == '\n' {
                 out.push(' ');
                 continue;
@@ -71,7 +133,8 @@ pub fn install_hook() {
         } else {
             "?".to_string()
         };
-        LAST.with(|l| *l.borrow_mut() = Some(Panicked { loc, msg }));
+        let frames = if CAPTURE_FRAMES.load(std::sync::atomic::Ordering::SeqCst) { library_frames() } else { vec![] };
+        LAST.with(|l| *l.borrow_mut() = Some(Panicked { loc, msg, frames }));
     }));
 }
 
@@ -81,6 +144,7 @@ pub fn safe<T>(f: impl FnOnce() -> T) -> Result<T, Panicked> {
         Err(_) => Err(LAST.with(|l| l.borrow_mut().take()).unwrap_or(Panicked {
             loc: "?".into(),
             msg: "?".into(),
+            frames: vec![],
         })),
     }
 }
